@@ -87,8 +87,11 @@ def inline_constants(trees, report):
             elif isinstance(st, (ast.Import, ast.ImportFrom)):
                 for al in st.names:
                     stable.add((al.asname or al.name).split(".")[0])
+        # module-level names bound exactly once (and never through `global`) are as stable as definitions
+        once = {nm for nm, sts_ in bound.items() if len(sts_) == 1 and sum(1 for x in ast.walk(tree) if isinstance(x, ast.Name) and x.id == nm and isinstance(x.ctx, (ast.Store, ast.Del))) == 1 and not any(isinstance(x, ast.Global) and nm in x.names for x in ast.walk(tree))}
+        stable = stable | once
         for name, sts in bound.items():
-            if name in known or name.startswith("__") or name == "__all__" or len(sts) != 1 or not _literal(sts[0].value, stable):
+            if name in known or name.startswith("__") or name == "__all__" or len(sts) != 1 or not _literal(sts[0].value, stable - {name}):
                 continue
             # never rebound elsewhere (global statement, augmented assignment, other stores at module level)
             stores = [n for n in ast.walk(tree) if isinstance(n, ast.Name) and n.id == name and isinstance(n.ctx, (ast.Store, ast.Del))]
@@ -135,10 +138,21 @@ def inline_constants(trees, report):
                     membership = isinstance(par, ast.Compare) and len(par.ops) == 1 and isinstance(par.ops[0], (ast.In, ast.NotIn)) and par.comparators[0] is n
                     lookup = isinstance(par, ast.Subscript) and par.value is n and isinstance(par.ctx, ast.Load)
                     readonly = isinstance(par, ast.Attribute) and par.value is n and par.attr in ("items", "keys", "values", "get") and isinstance(pm.get(id(par)), ast.Call) and pm[id(par)].func is par
-                    if not (membership or lookup or readonly):
+                    iterated = (isinstance(par, (ast.For, ast.comprehension)) and par.iter is n)
+                    if not (membership or lookup or readonly or iterated):
                         continue
-                if origin[n.id] != rel and any(isinstance(x, ast.Name) and not (hasattr(_b, x.id) and x.id not in here) for x in ast.walk(value)):
-                    continue  # names of the defining module are not necessarily visible here (builtins are)
+                elif isinstance(value, ast.Tuple) and not (isinstance(par, (ast.For, ast.comprehension)) and par.iter is n) and len(value.elts) > 8:
+                    pass
+                if origin[n.id] != rel:
+                    missing = {x.id for x in ast.walk(value) if isinstance(x, ast.Name) and not ((hasattr(_b, x.id) and x.id not in here) or x.id in here)}
+                    if missing:
+                        # names of the defining module that this module does not see: import them next to the constant
+                        # (same module, plain module-level names there), else leave the constant alone
+                        imp = next((st for st in ast.walk(tree) if isinstance(st, ast.ImportFrom) and any(al.name == n.id and al.asname is None for al in st.names)), None)
+                        if imp is None or not missing <= module_globals(trees[origin[n.id]]):
+                            continue
+                        imp.names = list(imp.names) + [ast.alias(name=m_, asname=None) for m_ in sorted(missing)]
+                        here = here | missing
                 new = copy.deepcopy(value)
                 for x in ast.walk(new):
                     ast.copy_location(x, n)
@@ -196,7 +210,10 @@ def inline_class_constants(trees, report):
                     continue
                 pm = _parents(tree)
                 reads = [n for n in ast.walk(tree) if isinstance(n, ast.Attribute) and n.attr == name and isinstance(n.ctx, ast.Load)]
-                elsewhere = any(isinstance(n, ast.Attribute) and n.attr == name for r2, t in trees.items() if r2 != rel for n in ast.walk(t))
+                def _defines_own(t):
+                    return any(isinstance(c, ast.ClassDef) and any(isinstance(x, (ast.Assign, ast.AnnAssign)) and any(isinstance(tt, ast.Name) and tt.id == name for tt in (x.targets if isinstance(x, ast.Assign) else [x.target])) for x in c.body) for c in ast.walk(t))
+
+                elsewhere = any(isinstance(n, ast.Attribute) and n.attr == name and not (isinstance(n.value, ast.Name) and n.value.id in ("self", "cls") and _defines_own(t)) for r2, t in trees.items() if r2 != rel for n in ast.walk(t))
                 plain = [n for x in cnode.body if not isinstance(x, (ast.FunctionDef, ast.AsyncFunctionDef)) for n in ast.walk(x) if isinstance(n, ast.Name) and n.id == name and isinstance(n.ctx, ast.Load)]
                 if elsewhere or plain or not reads:
                     continue
@@ -208,7 +225,8 @@ def inline_class_constants(trees, report):
                     membership = isinstance(par, ast.Compare) and len(par.ops) == 1 and isinstance(par.ops[0], (ast.In, ast.NotIn)) and par.comparators[0] is n
                     lookup = isinstance(par, ast.Subscript) and par.value is n and isinstance(par.ctx, ast.Load)
                     readonly = isinstance(par, ast.Attribute) and par.value is n and par.attr in ("items", "keys", "values", "get") and isinstance(pm.get(id(par)), ast.Call) and pm[id(par)].func is par
-                    if not (_immutable_literal(value) or membership or lookup or readonly):
+                    iterated = isinstance(par, (ast.For, ast.comprehension)) and par.iter is n
+                    if not (_immutable_literal(value) or membership or lookup or readonly or iterated):
                         ok = False
                 if not ok:
                     continue
